@@ -980,21 +980,9 @@ func isEmpty(v *Val) bool {
 	return false
 }
 
-func dynNorm(t *c01x.Tree) *c01x.Tree {
-	c := *t
-	c.List = nil
-	for _, e := range t.List {
-		c.List = append(c.List, dynNorm(e))
-	}
-	if t.Kind == c01x.List && len(t.List) == 0 {
-		c.Eid = 0
-	}
-	return &c
-}
-
 // expect: the value a fresh variable must hold after decoding the encoding of v.
 // nil pointer -> pointer to the zero value; omitempty field holding an empty value -> zero value;
-// skipped field -> zero value; dynbt forgets the element id of an empty list; the rest identical.
+// skipped field -> zero value; the rest identical.
 func expect(t *Ty, v *Val) *Val {
 	switch t.K {
 	case "sl", "ar":
@@ -1027,10 +1015,6 @@ func expect(t *Ty, v *Val) *Val {
 			return &Val{K: '&', P: expect(t.E, zeroVal(t.E))}
 		}
 		return &Val{K: '&', P: expect(t.E, v.P)}
-	case "dyn":
-		if v.K == 'y' {
-			return &Val{K: 'y', T: dynNorm(v.T)}
-		}
 	}
 	return v
 }
@@ -1323,12 +1307,7 @@ func roundTrip(o *hx.Out, cat string, t *Ty, v *Val, file, byval bool, name []by
 	}
 	if pan != "" {
 		o.Case(cat, nontrivial, caseLine(), head+" panic")
-		if t.K == "any" && v.K == '0' && byval {
-			// Marshal(nil): the untyped nil is not a value of any type of the universe; recorded finding
-			o.Fail("C02.panic.encode.nil-root", "%s panic=%s", desc(), pan)
-		} else {
-			o.Fail("C02.panic.encode", "%s panic=%s", desc(), pan)
-		}
+		o.Fail("C02.panic.encode", "%s panic=%s", desc(), pan)
 		return
 	}
 	if err != nil {
@@ -1404,18 +1383,6 @@ func sortRoot(t *c01x.Tree) {
 		ks[i], ls[i] = t.Keys[j], t.List[j]
 	}
 	t.Keys, t.List = ks, ls
-}
-
-func dynExact(t *c01x.Tree) bool {
-	if t.Kind == c01x.List && len(t.List) == 0 && t.Eid != 0 {
-		return false
-	}
-	for _, e := range t.List {
-		if !dynExact(e) {
-			return false
-		}
-	}
-	return true
 }
 
 func hasDupKeys(t *c01x.Tree) bool {
@@ -1500,9 +1467,6 @@ func carrier(o *hx.Out, ctx, kind string, doc *c01x.Tree, file bool, name []byte
 	o.Case(cat, true, caseLine, impl)
 	// where exactness is promised: see Props/C02.v C02_carrier_*
 	exact := true
-	if kind == "dyn" && !dynExact(doc) {
-		exact = false // dynbt does not keep the element id of an empty list (recorded finding / fix)
-	}
 	if ctx == "map" && hasDupKeys(doc) {
 		exact = false // a Go map keeps one entry per key
 	}
@@ -1514,10 +1478,6 @@ func carrier(o *hx.Out, ctx, kind string, doc *c01x.Tree, file bool, name []byte
 	}
 	if exact && !same {
 		o.Fail("C02.carrier."+kind+"."+ctx, "%s out=%s", desc(), clip(hx.Hex(out)))
-	}
-	if !exact && !same && kind == "dyn" && !dynExact(doc) && !(ctx == "map" && hasDupKeys(doc)) && !(ctx == "list" && len(doc.List) == 0) {
-		// recorded finding (C02_carrier_dyn_refuted): the element id of an empty list is not kept
-		o.Fail("C02.carrier.dyn.empty-list-id", "%s out=%s", desc(), clip(hx.Hex(out)))
 	}
 }
 
